@@ -152,64 +152,97 @@ func c27Run(c *core.Ctx, work string, idx int, mode string, r *rand.Rand) {
 		return true, v, it.UserMeta(), it.ExpiresAt(), it.Version(), e
 	}
 	info := map[string]any{"mode": mode, "options": ov.Name, "calls": len(calls), "keys": len(keys), "batches": nBatches}
-	for vk, want := range last {
-		ts := vk.v
-		if mode == "normal" {
-			ts = 0
+	// newest version written per key (managed modes): a read far above it must return that version's last call
+	maxVer := map[string]uint64{}
+	for vk := range last {
+		if vk.v > maxVer[vk.k] {
+			maxVer[vk.k] = vk.v
 		}
-		// in managed modes read exactly at the version: the newest write <= ts must be this one
-		found, val, meta, exp, version, err := readAt(vk.k, ts)
-		c.Count("c27.pairs_checked", 1)
-		if err != nil {
-			c.Violation("C27|"+mode+"|read-error", err.Error(), info)
-			continue
-		}
-		if managed && found && version != ts {
-			// an older version shines through only if want is a delete (then found must be false)
-			found = found && false
-		}
-		if want.Del {
-			if found {
-				c.Violation("C27|"+mode+"|deleted-visible", fmt.Sprintf("key %x version %d: last call %d was a delete but a value is visible", vk.k, ts, want.Idx), info)
+	}
+	compare := func(stage string, above bool) {
+		for vk, want := range last {
+			ts := vk.v
+			if mode == "normal" {
+				ts = 0
 			}
-			continue
-		}
-		if !found {
-			c.Violation("C27|"+mode+"|missing", fmt.Sprintf("key %x version %d: last call %d (set) is not visible", vk.k, ts, want.Idx), info)
-			continue
-		}
-		if !bytes.Equal(val, gen.Expand(want.Token, want.Len)) || meta != want.Meta || exp != want.Expires {
-			// which call produced what we read?
-			gotCall := -1
-			for _, cl := range calls {
-				if !cl.Del && cl.Key == vk.k && bytes.Equal(val, gen.Expand(cl.Token, cl.Len)) {
-					gotCall = cl.Idx
+			if above {
+				if !managed || vk.v != maxVer[vk.k] {
+					continue
 				}
+				ts = vk.v + 1000
 			}
-			kind := "wrong-value"
-			if gotCall >= 0 && gotCall < want.Idx {
-				kind = "earlier-call-wins"
-				// was a different version of the same key written between the two calls inside the batch?
-				for _, cl := range calls[gotCall+1 : want.Idx] {
-					if cl.Key == vk.k && cl.Version != want.Version {
-						kind = "earlier-call-wins|other-version-between"
-						break
+			// in managed modes read exactly at the version: the newest write <= ts must be this one
+			found, val, meta, exp, version, err := readAt(vk.k, ts)
+			c.Count("c27.pairs_checked", 1)
+			if err != nil {
+				c.Violation("C27|"+mode+stage+"|read-error", err.Error(), info)
+				continue
+			}
+			if managed && found && version != vk.v {
+				// an older version shines through only if want is a delete (then found must be false)
+				found = found && false
+			}
+			if want.Del {
+				if found {
+					c.Violation("C27|"+mode+stage+"|deleted-visible", fmt.Sprintf("key %x version %d: last call %d was a delete but a value is visible", vk.k, ts, want.Idx), info)
+				}
+				continue
+			}
+			if !found {
+				c.Violation("C27|"+mode+stage+"|missing", fmt.Sprintf("key %x version %d: last call %d (set) is not visible", vk.k, ts, want.Idx), info)
+				continue
+			}
+			if !bytes.Equal(val, gen.Expand(want.Token, want.Len)) || meta != want.Meta || exp != want.Expires {
+				// which call produced what we read?
+				gotCall := -1
+				for _, cl := range calls {
+					if !cl.Del && cl.Key == vk.k && bytes.Equal(val, gen.Expand(cl.Token, cl.Len)) {
+						gotCall = cl.Idx
 					}
 				}
-			}
-			w := map[string]any{"info": info, "key": fmt.Sprintf("%x", vk.k), "version": ts, "want_call": want.Idx, "got_call": gotCall}
-			var seq []string
-			for _, cl := range calls {
-				if cl.Key == vk.k {
-					seq = append(seq, fmt.Sprintf("#%d v%d del=%v", cl.Idx, cl.Version, cl.Del))
+				kind := "wrong-value"
+				if gotCall >= 0 && gotCall < want.Idx {
+					kind = "earlier-call-wins"
+					// was a different version of the same key written between the two calls inside the batch?
+					for _, cl := range calls[gotCall+1 : want.Idx] {
+						if cl.Key == vk.k && cl.Version != want.Version {
+							kind = "earlier-call-wins|other-version-between"
+							break
+						}
+					}
 				}
+				w := map[string]any{"info": info, "key": fmt.Sprintf("%x", vk.k), "version": ts, "want_call": want.Idx, "got_call": gotCall}
+				var seq []string
+				for _, cl := range calls {
+					if cl.Key == vk.k {
+						seq = append(seq, fmt.Sprintf("#%d v%d del=%v", cl.Idx, cl.Version, cl.Del))
+					}
+				}
+				if len(seq) > 80 {
+					seq = seq[len(seq)-80:]
+				}
+				w["calls_on_key"] = seq
+				c.Violation("C27|"+mode+stage+"|"+kind, fmt.Sprintf("key %x version %d holds the value of call %d, the last call for it was %d", vk.k, ts, gotCall, want.Idx), w)
 			}
-			if len(seq) > 80 {
-				seq = seq[len(seq)-80:]
-			}
-			w["calls_on_key"] = seq
-			c.Violation("C27|"+mode+"|"+kind, fmt.Sprintf("key %x version %d holds the value of call %d, the last call for it was %d", vk.k, ts, gotCall, want.Idx), w)
 		}
+	}
+	compare("", false)
+	compare("|read-above", true)
+	// the same pairs after the memtables were flushed to L0 tables by Close and the database re-opened
+	if !ov.Opt.InMemory && (idx/3)%3 != 2 {
+		if err := db.Close(); err != nil {
+			c.Violation("C27|"+mode+"|close", err.Error(), info)
+			return
+		}
+		var err error
+		if db, err = openDB(ov.Opt, managed); err != nil {
+			c.Violation("C27|"+mode+"|reopen", err.Error(), info)
+			db, _ = openDB(ov.Opt, managed)
+			return
+		}
+		compare("|after-reopen", false)
+		compare("|after-reopen|read-above", true)
+		c.Count("c27.reopen_runs", 1)
 	}
 	c.Distinct(fmt.Sprintf("%s|%s|splits=%d|batches=%d", mode, ov.Name, min(splits, 5), nBatches))
 	if idx < 3 {
@@ -221,7 +254,8 @@ func c27Run(c *core.Ctx, work string, idx int, mode string, r *rand.Rand) {
 func C27(c *core.Ctx) {
 	c.Rule("random WriteBatch call sequences (Set/SetEntry(meta,expiry)/Delete; SetEntryAt/DeleteAt in managed mode) over 3-14 keys with heavy reuse, 1-2000 " +
 		"calls so that 0-40 internal transactions are cut, 1-3 batches, tiny memtables; modes NewWriteBatch, NewWriteBatchAt (also non-monotonic batch timestamps), " +
-		"NewManagedWriteBatch with 4 alternating versions per key; after Flush()==nil every (key, version) is read and must hold the last call's effect; " +
+		"NewManagedWriteBatch with 4 alternating versions per key; after Flush()==nil every (key, version) is read (at the version and, for the newest version of a key, far above it) and must hold the last call's effect, " +
+		"again after Close/re-open when the entries sit in several L0 tables; " +
 		"distinct = (mode, options, internal split class, batches) combinations")
 	work := c.WorkDir()
 	defer os.RemoveAll(work)
